@@ -443,7 +443,12 @@ impl SourceFile {
     ///
     /// Returns None if the offset is out of bounds.
     pub fn get_line_column(&self, offset: usize) -> Option<LineColumn> {
-        let (_, zero_indexed_line, zero_indexed_column) = self.ariadne().get_byte_line(offset)?;
+        let (_, zero_indexed_line, byte_column) = self.ariadne().get_byte_line(offset)?;
+        // `LineColumn::column` counts Unicode scalar values, not UTF-8 bytes
+        let zero_indexed_column = self
+            .source_text
+            .get(offset - byte_column..offset)
+            .map_or(byte_column, |line_prefix| line_prefix.chars().count());
         Some(LineColumn {
             line: zero_indexed_line + 1,
             column: zero_indexed_column + 1,
